@@ -113,8 +113,13 @@ def run(case: dict, ctx) -> dict:
     rounds = rng.choice([1, 2, 10, 1000, rng.randrange(1, 2001)])
     salt = bytes(rng.randrange(256) for _ in range(rng.choice([8, 16, 32, rng.randrange(8, 33)])))
     data_key = bytes(rng.randrange(256) for _ in range(ks))
+    dict_style = rng.choice(["full", "vmware", "vmware"])
+    if dict_style == "vmware" and rng.random() < 0.5:
+        # make sure the base64 of the salt really contains '+' and '/' (bytes 0xfb 0xef 0xbe.. encode to "++++", 0xff.. to "////")
+        salt = (b"\xfb\xef\xbe\xff\xff\xff" + salt)[: max(len(salt), 8)]
+        data_key = (b"\xfb\xef\xbe\xff\xff\xff" + data_key)[:ks]
     blob, p = w.phrase_pair(rng, phrase, data_key, cipher=cipher, mac=mac, kdf=kdf, rounds=rounds, salt=salt, ident=rng.choice(["id1", "a b/c", "ключ"]),
-                            data_cipher=data_cipher)
+                            data_cipher=data_cipher, dict_style=dict_style)
     # decoy pairs that do not match the passphrase
     decoys = []
     for j in range(rng.choice([0, 0, 1, 3, 3, 15, 16, 24])):
